@@ -363,7 +363,12 @@ def run(ctx):
     shutil.rmtree(work, ignore_errors=True)
     os.makedirs(work)
     croot = os.path.join(C.BUILD, "cache", "c14")
-    cache_dir = os.path.join(croot, "%s_%s" % (tc["hash"], file_hash(EXTRACT, os.path.join(C.VERIF, "tools", "artifact_extract.py"))))
+    # results are cached per tool chain: tree hash + identity (size, mtime) of the binaries actually used, so a tool chain
+    # rebuilt under the same tree hash does not reuse old results
+    bind = os.path.dirname(tc["dora"])
+    ident = hashlib.sha256(repr([(f, os.stat(os.path.join(bind, f)).st_size, os.stat(os.path.join(bind, f)).st_mtime_ns)
+                                 for f in ("dora", "dora-cannon-compiler", "dora-boots-compiler", "libdora_runtime.a", "libdora_startup.a")]).encode()).hexdigest()[:8]
+    cache_dir = os.path.join(croot, "%s_%s_%s" % (tc["hash"], ident, file_hash(EXTRACT, os.path.join(C.VERIF, "tools", "artifact_extract.py"))))
     os.makedirs(cache_dir, exist_ok=True)
     for o in os.listdir(croot):          # results of other tool chains are useless: drop them (disk)
         if not o.startswith(tc["hash"]) and time.time() - os.path.getmtime(os.path.join(croot, o)) > 3600:
@@ -544,7 +549,8 @@ def run(ctx):
                 if ex["stdout"].startswith(out):
                     lost = ex["stdout"][len(out):]
                     what = "partial-line" if not lost.endswith("\n") and "\n" not in lost else "lines"
-                    ctx.finding("oracle:lost-output:%s:%s:%s" % (cls, what, bek), replay,
+                    handler = "trap" if cls in G.TRAP_IDS else cls        # which runtime function ended the process
+                    ctx.finding("oracle:lost-output:%s:%s:%s" % (handler, what, bek), replay,
                                 "%s (%s): standard output written before the trap was not delivered: %r missing" % (sc.key, bek, lost))
                 else:
                     ctx.finding("oracle:stdout:%s:%s" % (cls, bek), replay, "%s (%s): stdout %r, expected %r" % (sc.key, bek, out[-200:], ex["stdout"][-200:]))
